@@ -29,7 +29,7 @@ TEXT["C09"] = {
     "level": "Kernel-checked for every record length and bit pattern: decode(encode bits ++ rest) = (bits, rest) for 01, b8 and r8 (incl. the 255-run split); every decoder (01, b8, r8, hits, dets), on "
              "arbitrary bytes, accepts only records of exactly n bits (no index >= n is ever produced). Correspondence under ASan+UBSan: writer bytes = Lean reference encoders for all six formats; four reader "
              "entry points x three widths = Lean decoders on valid, mutated, truncated and random input.",
-    "note": COMMON_NOTE + "hits/dets/ptb64 round trips are validated by correspondence, not yet by theorem (partial). stim convert CLI not yet driven.",
+    "note": COMMON_NOTE + "hits/dets/ptb64 round trips are validated by correspondence, not yet by theorem (partial). `stim convert` is driven in-process (sizes from --bits_per_shot, explicit counts, --dem, --circuit/--types; --obs_out; all format pairs it accepts): its output bytes must be the Lean encoding of the input bits.",
     "technique": "Lean 4 theorems (induction over codec state) + model-equality correspondence under sanitizers",
 }
 TEXT["C20"] = {
@@ -51,14 +51,16 @@ TEXT["C02"] = {
     "level": "Kernel-checked: each FrameSimulator per-gate rule equals the sign-free documented conjugation (3 widths, regenerated each run); the Pauli-frame relation between a noisy shot and the "
              "noiseless reference is preserved by noise, forced measurements and free measurements for either randomisation coin (all sizes). Correspondence: every sampled record is tested for "
              "membership in the affine space the Lean frame model derives from the circuit (a verified-by-construction linear-algebra oracle), all allowed directions must be taken, and "
-             "deterministic circuits must produce identical bytes in memory and streamed, in all six formats.",
+             "deterministic circuits must produce identical bytes in memory and streamed, in all six formats. The command line (`stim sample`, in-process stim::main with every flag, "
+             "one-shot streaming path included) is judged by the same oracle; the streaming measurement record is modelled (Model/Record) with stream_is_history / lookback_is_history proved.",
     "note": COMMON_NOTE + "The induction that assembles the step theorems into fsim_shot_valid is not yet done (partial); rates/uniformity are C05's statistical tier.",
     "technique": "Lean 4 theorems (Pauli-frame invariant steps, decide over regenerated tables) + GF(2) membership oracle correspondence",
 }
 TEXT["C04"] = {
     "level": "Specification-level evaluator of DETECTOR / OBSERVABLE_INCLUDE parities in Lean (structural recursion over the unrolled program) applied to the measurement record of the same shot the "
              "implementation reported detection events for, and to measurements_to_detection_events outputs (with sweep bits, with/without reference sample).",
-    "note": COMMON_NOTE + "Theorems for this property are small (XOR semantics); the assurance comes mainly from the oracle correspondence. CLI option matrix not yet driven (partial).",
+    "note": COMMON_NOTE + "Theorems for this property are small (XOR semantics); the assurance comes mainly from the oracle correspondence. `stim detect` (plain / appended / prepended / --obs_out, all formats) is judged by a record-free oracle "
+            "(detection events in D(offset)+span D(columns); C04b.dets_oracle_accepts / dets_oracle_sound prove it exact) and `stim m2d` (sweep, skip-reference, ran-without-feedback, obs_out) by the m2d oracle.",
     "technique": "Lean 4 executable specification + oracle correspondence on same-shot data",
 }
 TEXT["C03"] = {
